@@ -37,6 +37,7 @@ KINDS = [
     "array_wrong_shape",
     "string_too_large",
     "item_too_large",
+    "struct_update_bad_field",
     "union_non_member",
     "other_context",
     "offset_without_buffer",
@@ -44,7 +45,7 @@ KINDS = [
 
 
 def budget(tier):
-    return {"examples": 500 if tier == "quick" else 6000}
+    return {"examples": 1500 if tier == "quick" else 12000}
 
 
 def essential_labels(tier):
@@ -244,6 +245,63 @@ def run_case(case):
                 labels.add("union_wrong_type_name")
             applied = True
             return lambda: mat.obj_set(parent[0], parent[1], path[-1:], arg)
+        if kind == "struct_update_bad_field":
+            # a whole-struct update (dict) in which fields declared EARLIER get new valid values and a later field
+            # gets a value that cannot be honoured: all or nothing
+            structs = [(pp, s) for pp, s in mat.compound_paths(spec, model) if s["k"] == "struct" and (not pp or pp[-1][0] != "d")]
+            cands = []
+            for pp, sspec in structs:
+                _, sv = mat.model_get(spec, model, pp)
+                for fi, (fn, ft) in enumerate(sspec["fields"]):
+                    if ft["k"] == "string" or ft["k"] == "unionref" or (ft["k"] == "array" and (sv[fn]["flat"] or _default_item(ft["item"]) is not None)):
+                        cands.append((pp, sspec, sv, fi))
+            if not cands:
+                return ("na",)
+            # prefer candidates with a changeable earlier field
+            good = [c for c in cands if any(ft["k"] in ("scalar", "string") for _, ft in c[1]["fields"][: c[3]])]
+            pool_ = good or cands
+            path, sspec, sv, fi = pool_[mu["li"] % len(pool_)]
+            upd = {}
+            for fn, ft in sspec["fields"][:fi]:
+                if ft["k"] == "scalar":
+                    cur = sv[fn]
+                    upd[fn] = (1.0 if cur != 1.0 else 2.0) if ft["t"].startswith("Float") else (1 if cur != 1 else 2)
+                    labels.add("earlier_field_changed")
+                elif ft["k"] == "string" and sv[fn]:
+                    upd[fn] = "".join("q" if ch != "q" else "p" for ch in sv[fn]) if all(ord(ch) < 128 for ch in sv[fn]) else sv[fn]
+                    if upd[fn] != sv[fn]:
+                        labels.add("earlier_field_changed")
+            fn, ft = sspec["fields"][fi]
+            sobj, snode = mat.obj_get(obj, node, path)
+            if ft["k"] == "string":
+                upd[fn] = "y" * (int(sobj._size) + mu["extra"])
+                labels.add("bad_field:string")
+            elif ft["k"] == "unionref":
+                v = mu["variant"] % 3
+                if v == 0:
+                    Foreign = type("ForeignStruct", (xo.Struct,), {"q": xo.Int64})
+                    upd[fn] = Foreign(q=5, _buffer=buf)
+                elif v == 1:
+                    upd[fn] = {"q": 5}
+                else:
+                    upd[fn] = ("NoSuchTypeName", {"q": 5})
+                labels.add("bad_field:union")
+            else:
+                av = sv[fn]
+                proto = av["flat"][0] if av["flat"] else _default_item(ft["item"])
+                new_shape = list(av["shape"])
+                new_shape[0] += 1
+                if math.prod(new_shape) == math.prod(av["shape"]):
+                    return ("na",)
+                nvv = {"shape": new_shape, "flat": [proto] * math.prod(new_shape)}
+                fnode = mat._kid(snode, ["f", fn])
+                upd[fn] = assign.plain_arg(fnode, nvv) if tg.nested_expressible(new_shape) else np.empty(new_shape, dtype=object)
+                labels.add("bad_field:array")
+            applied = True
+            if not path:
+                return lambda: obj._update(upd)
+            parent = mat.obj_get(obj, node, path[:-1])
+            return lambda: mat.obj_set(parent[0], parent[1], path[-1:], upd)
         if kind == "other_context":
             other = xo.ContextCpu()
             applied = True
